@@ -257,7 +257,29 @@ func (ra *RestAgent) handleFetch(w http.ResponseWriter, r *http.Request) {
 	w.Header().Set("Content-Type", "application/json")
 	if err := json.NewEncoder(w).Encode(fetchResponse); err != nil {
 		log.WithError(err).Warn("Failed to write REST fetch response")
+
+		// The client has not got the bundles taken from its inbox; they are put back for its next fetch.
+		ra.returnToMailbox(fetchRequest.UUID, fetchResponse.Bundles)
 	}
+}
+
+// returnToMailbox puts bundles, which were taken but could not be handed out, back to the front of a client's inbox.
+func (ra *RestAgent) returnToMailbox(uuid string, bundles []bpv7.Bundle) {
+	if len(bundles) == 0 {
+		return
+	}
+
+	ra.mailboxMutex.Lock()
+	defer ra.mailboxMutex.Unlock()
+
+	if _, registered := ra.clients.Load(uuid); !registered {
+		return
+	}
+
+	if val, ok := ra.mailbox.Load(uuid); ok {
+		bundles = append(bundles, val.([]bpv7.Bundle)...)
+	}
+	ra.mailbox.Store(uuid, bundles)
 }
 
 // handleBuild creates and dispatches a new bundle, called by /build.
